@@ -4,7 +4,7 @@
      cfg    : [persistent; batch; timer; retry mode; consumers; min_size]      (list nat)
      phases : list (action, events observed until quiescence after the action)
               action = (0, id, items) offer | (1, first id of the call, outcome 0 ok/1 transient/2 permanent)
-                       release | (2, 0, 0) call Shutdown
+                       release | (2, 0, 0) call Shutdown | (3, 0, 0) the flush timer fires
               event  = (kind, sorted ids), sorted within the phase (kinds: see Model.v [event])
      final  : (sorted ids whose body is still in the storage, live helper goroutines at the end) *)
 From Verif Require Import Common.Base C03.Model.
@@ -28,6 +28,7 @@ Definition action_of (a : nat * nat * nat) : option action :=
   | (1, i, 1) => Some (ARelease i OTransient)
   | (1, i, 2) => Some (ARelease i OPermanent)
   | (2, _, _) => Some AShutdown
+  | (3, _, _) => Some ATimerFire
   | _ => None
   end.
 
